@@ -94,7 +94,10 @@ class Ctx(object):
                 raise StopSearch()
         check = self.check
         versions = [v for v in check.versions_for(case) if v in self.pool.workers]
-        res = self.pool.call(check.OP, check.op_args(case), versions)
+        if hasattr(check, "run_case"):
+            res = check.run_case(self, case, versions)
+        else:
+            res = self.pool.call(check.OP, check.op_args(case), versions)
         return self.account(case, res, label, in_hypothesis)
 
     def account(self, case, res, label=None, in_hypothesis=True):
@@ -135,7 +138,7 @@ class Ctx(object):
                     self.excluded_known[kf] += 1
                     continue
                 sig = (viol["kind"], viol["sub"])
-                rec = {"property": self.pid, "op": self.check.OP, "version": v, "case": case,
+                rec = {"property": self.pid, "op": getattr(self.check, "OP", None), "version": v, "case": case,
                        "violation": viol, "signature": list(sig)}
                 if self.target is None:
                     self.target = sig
@@ -319,7 +322,10 @@ def run_replay_record(ctx, rec, label="replay"):
     case = rec["case"]
     versions = [rec["version"]] if rec.get("version") else check.versions_for(case)
     versions = [v for v in versions if v in ctx.pool.workers]
-    res = ctx.pool.call(check.OP, check.op_args(case), versions)
+    if hasattr(check, "run_case"):
+        res = check.run_case(ctx, case, versions)
+    else:
+        res = ctx.pool.call(check.OP, check.op_args(case), versions)
     return ctx.account(case, res, label, in_hypothesis=False)
 
 
